@@ -19,6 +19,12 @@
  *     sds NAME NT D0[xD1..] SEED  SDcreate + SDwritedata (+ one attribute) + SDendaccess
  *     gr NAME W H NCOMP SEED      GRcreate + GRwriteimage + GRendaccess
  *     an KIND T R HEX             ANcreate/ANcreatef + ANwriteann + ANendaccess (KIND 0 dl,1 dd,2 fl,3 fd)
+ *     putn T HEX                  Hputelement(T, Hnewref(), HEX): the library chooses the reference number
+ *     del T R                     Hdeldd of an existing element (sessions of the first sentence only)
+ *     sdsnd NAME NT D0[xD1..]     SDcreate + SDendaccess, no data written (metadata-only session)
+ *     sdgattr NAME SEED           SDsetattr on the file: a new global attribute
+ *     sdsu NAME NT D1 NREC SEED   new SDS with an unlimited first dimension (x D1), NREC records written
+ *     dfsd D0[xD1] SEED           (base only, must come first) DFSDadddata: the file is created by the DFSD interface
  *     vgadd I K SEED              attach the (I mod n)-th EXISTING Vgroup for writing, add K tag/ref members, detach
  *                                 (its record is rewritten: new space through descriptor reuse)
  *     sync                        Hsync
@@ -144,6 +150,49 @@ static int do_op(sess_t *s, char *line)
         int n = unhex(tok[3], buf);
         if (need_h(s, 0, 0)) return -1;
         return Hputelement(s->fid, (uint16)atoi(tok[1]), (uint16)atoi(tok[2]), buf, n) == FAIL ? -1 : 0;
+    }
+    if (!strcmp(tok[0], "putn") && nt >= 3) {
+        int n = unhex(tok[2], buf);
+        uint16 ref;
+        if (need_h(s, 0, 0)) return -1;
+        ref = Hnewref(s->fid);
+        if (ref == 0) return -1;
+        return Hputelement(s->fid, (uint16)atoi(tok[1]), ref, buf, n) == FAIL ? -1 : 0;
+    }
+    if (!strcmp(tok[0], "del") && nt >= 3) {
+        if (need_h(s, 0, 0)) return -1;
+        return Hdeldd(s->fid, (uint16)atoi(tok[1]), (uint16)atoi(tok[2])) == FAIL ? -1 : 0;
+    }
+    if (!strcmp(tok[0], "dfsd")) return 0; /* handled before the file is opened */
+    if (!strcmp(tok[0], "sdsnd") && nt >= 4) {
+        int32 dims[8], sdsid; int rank = 0;
+        char *d = tok[3];
+        if (s->sd == FAIL) { s->sd = SDstart(s->path, DFACC_RDWR); if (s->sd == FAIL) return -1; }
+        while (*d && rank < 8) { dims[rank] = (int32)strtol(d, &d, 10); rank++; if (*d == 'x') d++; }
+        sdsid = SDcreate(s->sd, tok[1], atoi(tok[2]), rank, dims);
+        if (sdsid == FAIL) return -1;
+        return SDendaccess(sdsid) == FAIL ? -1 : 0;
+    }
+    if (!strcmp(tok[0], "sdgattr") && nt >= 3) {
+        int32 v;
+        if (s->sd == FAIL) { s->sd = SDstart(s->path, DFACC_RDWR); if (s->sd == FAIL) return -1; }
+        rnd_state = (unsigned)atoi(tok[2]); v = (int32)rnd();
+        return SDsetattr(s->sd, tok[1], DFNT_INT32, 1, &v) == FAIL ? -1 : 0;
+    }
+    if (!strcmp(tok[0], "sdsu") && nt >= 6) {
+        int32 dims[2], start[2] = {0, 0}, edges[2], sdsid; int i, rc = 0; long n;
+        int32 ntp = atoi(tok[2]);
+        if (s->sd == FAIL) { s->sd = SDstart(s->path, DFACC_RDWR); if (s->sd == FAIL) return -1; }
+        dims[0] = SD_UNLIMITED; dims[1] = atoi(tok[3]);
+        edges[0] = atoi(tok[4]); edges[1] = dims[1];
+        rnd_state = (unsigned)atoi(tok[5]);
+        sdsid = SDcreate(s->sd, tok[1], ntp, 2, dims);
+        if (sdsid == FAIL) return -1;
+        n = (long)edges[0] * edges[1] * DFKNTsize(ntp);
+        for (i = 0; i < n && i < (long)sizeof buf; i++) buf[i] = (unsigned char)rnd();
+        if (edges[0] > 0 && SDwritedata(sdsid, start, NULL, edges, buf) == FAIL) rc = -1;
+        if (SDendaccess(sdsid) == FAIL) rc = -1;
+        return rc;
     }
     if (!strcmp(tok[0], "sw") && nt >= 5) {
         int32 aid; int n = unhex(tok[4], buf); int rc = 0;
@@ -533,8 +582,25 @@ static void run_session(const char *dir, const char *name, char **base, int nbas
     fflush(stdout);
     if ((pid = fork()) == 0) {
         sess_t s = {FAIL, FAIL, FAIL, FAIL, 0, path};
-        int rc = 0;
-        if (need_h(&s, 1, ndds)) _exit(3);
+        int rc = 0, made = 0;
+        for (i = 0; i < nbase; i++)
+            if (!strncmp(base[i], "dfsd ", 5)) {   /* the file is created by the DFSD interface */
+                int32 dims[4]; int rank = 0, k; long n = 1; static float32 fdata[4096];
+                char *l = strdup(base[i]), *d = strtok(l + 5, " \t\r\n"), *sd = strtok(NULL, " \t\r\n");
+                while (d && *d && rank < 4) { dims[rank] = (int32)strtol(d, &d, 10); rank++; if (*d == 'x') d++; }
+                for (k = 0; k < rank; k++) n *= dims[k];
+                rnd_state = sd ? (unsigned)atoi(sd) : 1u;
+                for (k = 0; k < n && k < 4096; k++) fdata[k] = (float32)(rnd() % 1000) / 8.0f;
+                if (DFSDsetNT(DFNT_FLOAT32) == FAIL || DFSDsetdims(rank, dims) == FAIL) rc = 4;
+                for (k = 0; k < rank; k++) {   /* with dimension scales (an SD session cannot extend a DFSD file without) */
+                    static float32 sc[4096]; int j;
+                    for (j = 0; j < dims[k] && j < 4096; j++) sc[j] = (float32)(j + 1);
+                    if (DFSDsetdimscale(k + 1, dims[k], sc) == FAIL) rc = 4;
+                }
+                if (DFSDadddata(path, rank, dims, fdata) == FAIL) rc = 4;
+                made = 1; free(l);
+            }
+        if (need_h(&s, made ? 0 : 1, ndds)) _exit(3);
         for (i = 0; i < nbase; i++) { char *l = strdup(base[i]); int r = do_op(&s, l); if (r) { fprintf(stderr, "opfail base (%d): %s", r, base[i]); rc = 4; } free(l); }
         if (end_session(&s)) rc = 5;
         _exit(rc);
